@@ -102,7 +102,7 @@ structure DayInv (eps per delay : Int) (s : Loop) : Prop where
 /-- the settings of the run, as far as the closed forms need them -/
 structure Static (eps per delay : Int) : Prop where
   heps : 0 ≤ eps
-  heps5 : eps ≤ 500000
+  heps5 : eps ≤ 600000
   hper1 : 1 ≤ per
   hper2 : per ≤ 10
   hdel : 1 * US ≤ delay
@@ -559,13 +559,14 @@ def slackLo (per eps : Int) : Int := 15000000 + per * 10000001 + 7 * (per * eps)
 /-- slack of the upper bound: one poll of overshoot of the quota, the compute delay, `(4 * per + 9) * eps` -/
 def slackHi (per eps : Int) : Int := 15000000 + 4 * (per * eps) + 9 * eps
 
-theorem slack_le_180 (per eps : Int) (he : 0 ≤ eps) (he2 : eps ≤ 500000) (hp1 : 1 ≤ per) (hp2 : per ≤ 10) :
-    slackHi per eps ≤ slackLo per eps ∧ slackLo per eps ≤ 156 * US + 10 ∧ slackLo per eps < 180 * US := by
+theorem slack_le_180 (per eps : Int) (he : 0 ≤ eps) (he2 : eps ≤ 600000) (hp1 : 1 ≤ per) (hp2 : per ≤ 10) :
+    slackHi per eps ≤ slackLo per eps ∧ slackLo per eps ≤ 164200010 ∧ slackLo per eps < 180 * US
+    ∧ (eps ≤ 500000 → slackLo per eps ≤ 156000010) := by
   have hU : US = 1000000 := rfl
   have h1 : per * eps ≤ 10 * eps := mul_eps_le per 10 eps hp2 he
   have h0 : 0 ≤ per * eps := Int.mul_nonneg (by omega) he
   unfold slackLo slackHi
-  omega
+  refine ⟨?_, ?_, ?_, ?_⟩ <;> omega
 
 /-- what `DayOK` (Proofs/EcoLoop.lean) and `DayClosed` give together for a whole day -/
 theorem day_bounds (eps per delay : Int) (r : DayRec) (hst : Static eps per delay) (hok : DayOK r) (hcl : DayClosed eps per delay r)
